@@ -47,6 +47,9 @@ def gen(rnd, sid, mode=None, features=None, tank_bias=False):
          "pexp": list(rnd.choice(PEXP_GRID)), "all": True, "sweep": "", "patterns": {}, "nodes": [], "links": [],
          "ctl": [], "rules": []}
     s["preq"] = s["pmin"] + rnd.choice([10.0, 17.5, 25.0])
+    # the rule grid matters even without rules (run_sim walks it between hydraulic steps): also steps that do not
+    # divide the hydraulic step
+    s["Rs"] = rnd.choice([360, 360, 420, 700, 900, 1000])
     npat = rnd.randint(1, 3) if "patterns" in f else 0
     for i in range(npat):
         s["patterns"]["PAT%d" % i] = [rnd.randint(0, 8) / 4.0 for _ in range(rnd.randint(2, 6))]
